@@ -15,6 +15,7 @@ EXTRA_ARITH = [
     '1 < 2', '2 <= 1', '1 = 1', '"a" = "a"', '"a" != "b"', 'x > 1 and x > 1', 'x > 1 or not x > 1', 'x > 1 and not x > 1',
     'p iff p', 'p iff not p', 'p implies p', 'p implies q', 'not not p', 'not True', 'not False', 'p and True', 'p or False',
     'True and p', 'False or p', 'p and False', 'p or True', '(p and q) and p', 'p or (q or p)', 'p and (q and (p and q))',
+    'str(5) = "5"', 'str(x) = "1"', 'bool("") = False',
     'abs(-2) = 2', 'abs(x) >= 0', 'int(2.5) = 2', 'float(2) = 2', 'bool(1)', 'len({1, 2, x}) = 3', 'len([1 to 3]) = 3',
     'len(![1 to 3]!) = 1', 'sum({1, 2, x}) > x', 'prod({2, 3, x}) = 6 * x', 'sum([1 to 4]) = 10', 'prod([1 to 4]) = 24',
     'max({1, 5, x}) >= 5', 'min({1, 5, x}) <= 1', 'max(1, 2, x) >= 2', 'min(3, 2) = 2', 'max([1 to 4]) = 4', 'min([2 to 4]) = 2',
@@ -458,7 +459,7 @@ def totality(tier='quick', seed=0):
                 except Exception:
                     pass
     for t in ['1 - x = @v.y', '1 - x = y', '(1 - x) + 1 = y', '2 * x = y', '0 ** x = 1', 'len([1 to x]) > 0', 'gcd({4, 6}) = 2',
-              'max({1}) = 1', 'min({x}) = x', 'sum({}) = 0']:
+              'max({1}) = 1', 'min({x}) = x', 'sum({}) = 0', 'int("5") > 0', 'float("2.5") > x', 'int("-3") = y']:
         try:
             exprs.append(ep.parse(t))
         except Exception:
@@ -479,7 +480,7 @@ def totality(tier='quick', seed=0):
                 k = 'F11'
             elif name == 'AssertionError':
                 k = 'F12'
-            elif name in ('TypeError', 'ValueError') and '"' in s:
+            elif name in ('TypeError', 'ValueError') and __import__('re').search(r'(int|float|str|bool|len)\("[^"]*"\)', s):
                 k = 'F17'
         if k:
             known[k] = known.get(k, 0) + 1
@@ -500,7 +501,10 @@ def totality(tier='quick', seed=0):
                 if is_pred != isinstance(r, HplPredicate) or (not is_pred and r.data_type != t.data_type):
                     violations.append({'witness': f'kind:simplify:{t}', 'what': f'simplify({t}) returns {type(r).__name__} of another kind/type'})
             except allowed_simplify as x:
-                if isinstance(x, ValueError) and '"' in str(t):
+                # int("s") / float("s") of a non-numeric text is an undefined constant subexpression (allowed);
+                # of a numeric text it is defined: the failure is finding F17 (the payload keeps its quotes)
+                import re as _re
+                if isinstance(x, ValueError) and _re.search(r'(int|float)\("-?\d+(\.\d+)?"\)', str(t)):
                     known['F17'] = known.get('F17', 0) + 1
             except Exception as x:
                 record('simplify', t, x)
